@@ -567,3 +567,48 @@ def consumer(ex, st, call, args):
         return _consume(ex, st, T, lambda s, acc, it: iter([(s, acc + (it,), None)]),
                         lambda s, acc: _ret(s, ("call", "vec!", (("array", acc),))), ())
     return NotImplemented
+
+
+
+def drain_value(F, val, limit=64):
+    """All items of an iterator VALUE built from concrete shapes (a pure adaptor term, or an iterator struct of geo / geo_types, stepped through
+    its own `next`): the list of canonical item terms.  Raises Unanalysable when a step forks or the iterator does not end."""
+    from .symex import Symex, St, Unanalysable, show_pc, show
+    from .facts import short
+
+    def next_fn(adt):
+        for im in F.impls_of("core::iter::traits::iterator::Iterator"):
+            if im["self_ty"].split("<")[0] == adt and im.get("crate") in ("geo", "geo_types"):
+                return F.impl_fn(im, "next")
+        return None
+    out = []
+    cur = val
+    for _ in range(limit):
+        nf = next_fn(cur[1]) if cur[0] == "adt" else None
+        ex = Symex(F, concrete_iters=True, loop_bound=12, inline_crates=("geo", "geo_types"), max_depth=14)
+        ex.live_iter_mut = True
+        ex.resolve_by_receiver = True
+        if nf is not None:
+            ps = [p for p in ex.run(nf, args=[("arg", 1)], mem={("arg", 1): cur}) if p.kind != "cut"]
+            if len(ps) != 1 or ps[0].pc or ps[0].kind != "ret":
+                raise Unanalysable("a step of %s forks / panics on a concrete shape: %s" % (short(cur[1]), [show_pc(p.pc)[:80] for p in ps][:2]))
+            p = ps[0]
+            cur = ex.canon(p.st, p.st.mem.get(("S", ("arg", 1)), cur))
+            r = p.ret
+            if r[0] != "adt":
+                raise Unanalysable("next() does not return a concrete Option: %s" % show(r)[:80])
+            if r[2] == "None":
+                return out
+            out.append(r[3][0])
+        else:
+            try:
+                res = list(step(ex, St(), cur))
+            except NotConcrete as e:
+                raise Unanalysable(str(e))
+            if len(res) != 1:
+                raise Unanalysable("a step forks on a concrete shape")
+            st, it, cur = res[0]
+            if it is None:
+                return out
+            out.append(ex.canon(st, it))
+    raise Unanalysable("iterator does not end")
